@@ -5,6 +5,9 @@ use async_std::task as rt_task;
 #[cfg(feature = "tokio-runtime")]
 use tokio::task as rt_task;
 
+#[cfg(zmq_verif)]
+use zmq_simrt::task as rt_task;
+
 use super::JoinError;
 
 use std::future::Future;
@@ -22,6 +25,8 @@ impl<T> Future for JoinHandle<T> {
         #[cfg(any(feature = "async-std-runtime", feature = "async-dispatcher-runtime"))]
         return result.map(Ok);
         #[cfg(feature = "tokio-runtime")]
+        return result.map_err(|e| e.into());
+        #[cfg(zmq_verif)]
         return result.map_err(|e| e.into());
     }
 }
